@@ -28,7 +28,7 @@ func TestC08(t *testing.T) {
 	gen := func(yield func(vt.Case)) {
 		cfg := func(rnd *rand.Rand) map[string]any {
 			return map[string]any{"frame": []int{0, 1, 1, 200}[rnd.Intn(4)], "rbatch": []int{0, 0, 1, 2}[rnd.Intn(4)],
-				"skip": rnd.Intn(4) == 0, "hints": rnd.Intn(3) == 0, "promold": rnd.Intn(3) == 0, "samples": rnd.Intn(3) == 0}
+				"skip": rnd.Intn(4) == 0, "setext": rnd.Intn(3) == 0, "hints": rnd.Intn(3) == 0, "promold": rnd.Intn(3) == 0, "samples": rnd.Intn(3) == 0}
 		}
 		genWorldCases(t, rnd, vt.Pick(20, 200), vt.Pick(10, 100), vt.Pick(24, 30), vt.Pick(16, 20), cfg, yield)
 	}
@@ -40,7 +40,7 @@ func TestC08(t *testing.T) {
 		if err != nil {
 			t.Fatalf("building world: %v", err)
 		}
-		ts := b.tsdbStore(vt.Int(cfg["frame"]))
+		ts := b.tsdbStoreExt(vt.Int(cfg["frame"]), vt.Bool(cfg["setext"]))
 		bs, err := b.bucketStore(world.BucketOpts{})
 		if err != nil {
 			t.Fatalf("bucket store: %v", err)
